@@ -178,8 +178,8 @@ def explore(ctx, h, leg, max_depth, dedup=True, max_states=None, case_extra=None
                 if after is not None:
                     c['after'] = after
                 ctx.report(c, Violation(msg, exp, obs, known))
-            if ctx.full():
-                aborted = True
+            if ctx.violations:
+                aborted = True          # the level is finished (shortest counterexamples), nothing deeper is started
             for k, hist in new_states:
                 if dedup and k in seen:
                     continue
